@@ -80,6 +80,22 @@ Theorem C12_ods_empty_cells_capped :
 Proof. exact raw_cells_empty_bounded. Qed.
 Print Assumptions C12_ods_empty_cells_capped.
 
+(* ODF <text:s text:c="N"/>: the element is rendered as exactly space_count spaces — never negative, one
+   space for an unparsable count, and unbounded in the size of the attribute (the open finding) *)
+Theorem C12_odf_space_count_spec :
+  forall p : option Z, 0 <= space_count p /\ space_count None = 1 /\ (forall c, c <= 0 -> space_count (Some c) = 0)
+                       /\ (forall c, 0 < c -> space_count (Some c) = c).
+Proof.
+  intro p. split; [apply space_count_nonneg|]. split; [reflexivity|]. split; intros c Hc; unfold space_count.
+  - destruct (c >? 0) eqn:E; [apply Z.gtb_lt in E; lia | reflexivity].
+  - destruct (c >? 0) eqn:E; [reflexivity | destruct (Z.gtb_spec c 0); [discriminate | lia]].
+Qed.
+Print Assumptions C12_odf_space_count_spec.
+
+Theorem C12_odf_space_count_unbounded_refuted : forall K : Z, exists c, space_count (Some c) > K.
+Proof. exact space_count_unbounded. Qed.
+Print Assumptions C12_odf_space_count_unbounded_refuted.
+
 (* non-vacuity of the hypotheses *)
 Example C12_hypotheses_satisfiable :
   repeats_le 3 [(2, [(3, false); (1, true)]); (1, [(2, false)])] = true
